@@ -6,7 +6,7 @@
 #include <sched.h>
 #include "vtmt.h"
 
-static const char *base, *kind; static int nth, nobj, episodes, ops; static unsigned seed;
+static const char *base, *kind; static int nth, nobj, episodes, ops, fresh; static unsigned seed;
 static PMutex *mx[8]; static PSpinLock *sp[8]; static PRWLock *rw[8];
 static volatile long cell[8][16];   /* plain data, one cache line apart */
 static unsigned rnd (unsigned *s) { *s = *s * 1103515245u + 12345u; return (*s >> 16) & 0x7fff; }
@@ -68,6 +68,7 @@ int main (int argc, char **argv) {
 	int i, ep; pthread_t th[32];
 	if (argc < 8) return 2;
 	base = argv[1]; kind = argv[2]; nth = atoi (argv[3]); nobj = atoi (argv[4]); episodes = atoi (argv[5]); ops = atoi (argv[6]); seed = (unsigned) atoi (argv[7]);
+	fresh = argc > 8 && atoi (argv[8]);
 	if (nobj > 7 || nth > 31) return 2;
 	vtm_init (nth + 1);
 	p_libsys_init ();
@@ -78,6 +79,12 @@ int main (int argc, char **argv) {
 	}
 	for (i = 1; i <= nth; i++) pthread_create (&th[i], NULL, actor, (void *) (long) i);
 	for (ep = 0; ep < episodes; ep++) {
+		if (fresh && ep > 0)      /* new lock objects for every episode: their first use is a race between all threads */
+			for (i = 1; i <= nobj; i++) {
+				if (mx[i]) { p_mutex_free (mx[i]); mx[i] = p_mutex_new (); }
+				if (sp[i]) { p_spinlock_free (sp[i]); sp[i] = p_spinlock_new (); }
+				if (rw[i]) { p_rwlock_free (rw[i]); rw[i] = p_rwlock_new (); }
+			}
 		VTM_BEGIN (); VTM_PUT ("\"e\":\"Epoch\",\"cells\":[");
 		for (i = 1; i <= nobj; i++) VTM_PUT ("%s[%d,%ld]", i > 1 ? "," : "", i, cell[i][0]);
 		VTM_PUT ("]"); VTM_END ();
